@@ -19,7 +19,8 @@ TIME_VALS = [0, 1, 12, 59, 0.5, 0.1, 100000]
 SEC_VALS = [0, 1, 12, 59, 0.25, 0.1, 123456.789]
 # every two-decimal value below 100 and small magnitudes, one unit at a time (unit "decimals")
 TWO_DEC = [i / 100.0 for i in range(1, 10000)]
-SMALL = [0.001, 0.0001, 0.00005, 0.000001, 1e-07, 0.999999, 59.999999]
+SMALL = [0.001, 0.0001, 0.00005, 0.000001, 1e-07, 0.999999, 59.999999, 59.9999999999, 86400000.05, 123456789.25,
+         500000000.5, 8640000.25, 1e9 + 0.01, 0.30000000000000004]
 TIME_VALS_T = TIME_VALS + [0.25, 1.5, 23, 24]
 SEC_VALS_T = SEC_VALS + [0.5, 59.999999, 60, 3600]
 
